@@ -90,6 +90,16 @@ CHECKS = {
              "the model, with and without an exception_specification.",
         note="the propagation model (first clause matching the dynamic type or a registered base wins; finally exactly once) is mine, written from the property and the documentation",
         design="4/C10"),
+    "C11": dict(
+        engine="hypothesis-runner",
+        category="exploration",
+        technique="property-based testing with an instrumented C++ class and a registry that outlives the objects (invariants over construction/destruction/use histories), under ASan",
+        text="Generated programs create, copy, store, capture, pass, return and drop instances of an instrumented class in every way the API offers, "
+             "with scopes ending normally, by script throw and by a throwing C++ callee; at checkpoints the number of live instances must equal the "
+             "model's count and every referenced instance is touched; nothing may be destroyed twice or used after destruction; after set_locals({}) "
+             "and engine destruction exactly the instances held by the C++ side survive.",
+        note="the live-count model (which operations copy) is mine and calibrated on the repaired tree; references into temporaries kept beyond the statement are outside the domain",
+        design="4/C11"),
     "C12": dict(
         engine="hypothesis-runner",
         category="exploration",
